@@ -453,6 +453,13 @@ func (i *IfUnless) Evaluation(
 	t *base.T,
 ) (err error) {
 
+	// a conditional nested in a branch re-enters this shared evaluator: keep the
+	// bookkeeping of the enclosing conditional and hand it back on return
+	outerOriginalTs, outerNarrowTs, outerIfNarrowTs := i.originalTs, i.narrowTs, i.ifNarrowTs
+	defer func() {
+		i.originalTs, i.narrowTs, i.ifNarrowTs = outerOriginalTs, outerNarrowTs, outerIfNarrowTs
+	}()
+
 	// clear
 	i.originalTs = make(map[string][]base.T)
 	i.narrowTs = make(map[string][]base.T)
